@@ -7,9 +7,16 @@
 #include <qpdf/Pl_QPDFTokenizer.hh>
 #include <qpdf/QPDF.hh>
 #include <qpdf/QPDFObjectHandle.hh>
+#include <qpdf/QPDFExc.hh>
 #include <qpdf/QPDFPageDocumentHelper.hh>
+#include <qpdf/QPDFPageObjectHelper.hh>
 #include <qpdf/QPDFTokenizer.hh>
+#include <cctype>
+#include <functional>
+#include <map>
 #include <memory>
+#include <set>
+#include <cstdio>
 #include <stdexcept>
 
 namespace {
@@ -115,4 +122,282 @@ static Reg r_c16filter("c16filter", [](std::vector<std::string> const& a) -> std
     ContentNormalizer norm;
     page.filterPageContents(&norm, &buf);
     return hex(buf_string(buf)) + " " + (norm.anyBadTokens() ? "1" : "0") + " " + (norm.lastTokenWasBad() ? "1" : "0");
+});
+
+// ------------------------------------------------------------------------------------------------
+// Page-content LISTS: documents whose pages have an arbitrary /Contents value over an arbitrary object table
+// (model: coq/Struct/ContentList.v).
+//   <pages>   = value '/' value ...        one page per value; '-' = no /Contents key
+//   value     = r<k> | n | o | d | a(value.value...)      reference / null / integer / dictionary / direct array
+//   <objects> = k=s<hex> | k=s- | k=a(...) | k=n | k=o | k=d   joined by ','   ('-' alone: no objects)
+// Every answer is one field per page joined by '/', each field ending in ':' + the warnings raised while that page
+// was processed (i<index> = ignoring non-stream item, x = neither stream nor array, ?<text> = anything else).
+namespace {
+    struct PgDoc {
+        // the document is written as a PDF file and read back (processMemoryFile), so that every object is what qpdf's
+        // parser makes of a file (direct objects know their QPDF and warn through it instead of throwing)
+        QPDF pdf;
+        std::map<int, int> num;                  // object key -> object number
+        std::map<QPDFObjGen, int> rev;
+        std::vector<QPDFObjectHandle> pages;
+        std::string file;
+
+        std::string value(std::string const& s, size_t& i) {
+            char c = s.at(i++);
+            if (c == 'r') {
+                size_t j = i;
+                while (j < s.size() && isdigit(static_cast<unsigned char>(s[j]))) ++j;
+                int k = std::stoi(s.substr(i, j - i));
+                i = j;
+                auto it = num.find(k);
+                return std::to_string(it != num.end() ? it->second : 900000 + k) + " 0 R";
+            }
+            if (c == 'n') return "null";
+            if (c == 'o') return "7";
+            if (c == 'd') return "<< /A 1 >>";
+            if (c == 'a' && s.at(i) == '(') {
+                ++i;
+                std::string v = "[";
+                while (s.at(i) != ')') {
+                    v += " " + value(s, i);
+                    if (s.at(i) == '.') ++i;
+                }
+                ++i;
+                return v + " ]";
+            }
+            throw std::runtime_error("bad value syntax");
+        }
+
+        PgDoc(std::string const& pages_s, std::string const& objs_s) {
+            std::vector<std::string> pvals;
+            { std::stringstream ps(pages_s); std::string pv; while (std::getline(ps, pv, '/')) pvals.push_back(pv); }
+            std::vector<std::pair<int, std::string>> items;
+            if (objs_s != "-") {
+                std::stringstream ss(objs_s); std::string item;
+                while (std::getline(ss, item, ',')) {
+                    size_t eq = item.find('=');
+                    items.emplace_back(std::stoi(item.substr(0, eq)), item.substr(eq + 1));
+                }
+            }
+            int next = 3 + static_cast<int>(pvals.size());
+            for (auto const& [k, body]: items) {
+                if (!num.count(k)) { num[k] = next; rev[QPDFObjGen(next, 0)] = k; ++next; }
+            }
+            std::vector<std::string> bodies(static_cast<size_t>(next));
+            bodies[1] = "<< /Type /Catalog /Pages 2 0 R >>";
+            std::string kids;
+            for (size_t p = 0; p < pvals.size(); ++p) {
+                size_t i = 0;
+                kids += " " + std::to_string(3 + p) + " 0 R";
+                bodies[3 + p] = "<< /Type /Page /Parent 2 0 R /MediaBox [0 0 100 100] /Resources << >>" +
+                    (pvals[p] == "-" ? std::string() : " /Contents " + value(pvals[p], i)) + " >>";
+            }
+            bodies[2] = "<< /Type /Pages /Count " + std::to_string(pvals.size()) + " /Kids [" + kids + " ] >>";
+            std::set<int> done;
+            for (auto const& [k, body]: items) {
+                if (!done.insert(k).second) continue;
+                size_t i = 0;
+                if (body[0] == 's') {
+                    std::string data = body == "s-" ? std::string() : unhex(body.substr(1));
+                    bodies[static_cast<size_t>(num[k])] = "<< /Length " + std::to_string(data.size()) + " >>\nstream\n" + data + "\nendstream";
+                } else {
+                    bodies[static_cast<size_t>(num[k])] = value(body, i);
+                }
+            }
+            file = "%PDF-1.4\n%\xbf\xf7\xa2\xfe\n";
+            std::vector<size_t> offs(bodies.size());
+            for (size_t n = 1; n < bodies.size(); ++n) {
+                offs[n] = file.size();
+                file += std::to_string(n) + " 0 obj\n" + bodies[n] + "\nendobj\n";
+            }
+            size_t xref = file.size();
+            file += "xref\n0 " + std::to_string(bodies.size()) + "\n0000000000 65535 f \n";
+            for (size_t n = 1; n < bodies.size(); ++n) {
+                char buf[32];
+                snprintf(buf, sizeof buf, "%010zu 00000 n \n", offs[n]);
+                file += buf;
+            }
+            file += "trailer\n<< /Size " + std::to_string(bodies.size()) + " /Root 1 0 R >>\nstartxref\n" + std::to_string(xref) + "\n%%EOF\n";
+            pdf.setSuppressWarnings(true);
+            pdf.processMemoryFile("c16pg", file.data(), file.size());
+            pages = pdf.getAllPages();
+            setup_warns = warns();
+        }
+        std::string setup_warns;
+        bool only_list_warnings = false;   // drop what is not a warning of arrayOrStreamToStreamArray (the object parser's own)
+
+        std::string warns() {
+            std::string r;
+            for (auto const& w: pdf.getWarnings()) {
+                std::string m = w.getMessageDetail(), o = w.getObject();
+                if (!r.empty()) r += ".";
+                size_t p = o.find("item index ");
+                if (m.find("ignoring non-stream in an array of streams") != std::string::npos && p != std::string::npos) {
+                    r += "i" + std::to_string(std::stoi(o.substr(p + 11)));
+                } else if (m.find("is supposed to be a stream or an array of streams but is neither") != std::string::npos) {
+                    r += "x";
+                } else if (!only_list_warnings) {
+                    r += "?" + hex(m);
+                } else if (!r.empty()) {
+                    r.pop_back();
+                }
+            }
+            return r.empty() ? "-" : r;
+        }
+
+        std::string ids(std::vector<QPDFObjectHandle> const& v) {
+            std::string r;
+            for (auto const& h: v) {
+                if (!r.empty()) r += ".";
+                auto it = rev.find(h.getObjGen());
+                r += it != rev.end() ? std::to_string(it->second) : std::string("N");
+            }
+            return r.empty() ? "-" : r;
+        }
+    };
+
+    // fresh: a new document for every page (for operations that change objects other pages may share)
+    std::string per_page(std::vector<std::string> const& a, std::function<std::string(PgDoc&, QPDFObjectHandle&)> f, bool fresh = false) {
+        auto d0 = std::make_unique<PgDoc>(a.at(0), a.at(1));
+        std::string out;
+        if (d0->setup_warns != "-") return "setup-warnings " + d0->setup_warns;
+        size_t npages = d0->pages.size();
+        for (size_t pi = 0; pi < npages; ++pi) {
+            if (fresh && pi > 0) d0 = std::make_unique<PgDoc>(a.at(0), a.at(1));
+            PgDoc& d = *d0;
+            auto& pg = d.pages.at(pi);
+            std::string r;
+            try {
+                r = f(d, pg);
+            } catch (QPDFExc& e) {
+                // an item without an owning QPDF: its warning is thrown
+                std::string o = e.getObject();
+                size_t p = o.find("item index ");
+                if (e.getMessageDetail().find("ignoring non-stream in an array of streams") != std::string::npos && p != std::string::npos) {
+                    r = "exc:i" + std::to_string(std::stoi(o.substr(p + 11)));
+                } else {
+                    r = "exc" + hex(e.what());
+                }
+            } catch (std::exception& e) {
+                std::string m = e.what();
+                r = m.find("operation for stream attempted on object of type") != std::string::npos ? std::string("exctype") : "exc" + hex(m);
+            }
+            if (!out.empty()) out += "/";
+            out += r + ":" + d.warns();
+        }
+        return out;
+    }
+
+    std::string hex_or_dash(std::string const& s) { return s.empty() ? "-" : hex(s); }
+
+    class SizeCallbacks: public QPDFObjectHandle::ParserCallbacks {
+      public:
+        size_t size = 0; int objects = 0;
+        void handleObject(QPDFObjectHandle, size_t, size_t) override { ++objects; }
+        void handleEOF() override {}
+        void contentSize(size_t n) override { size = n; }
+    };
+}
+
+// c16pglist: getPageContents() as object keys, with repetitions
+static Reg r_c16pglist("c16pglist", [](std::vector<std::string> const& a) -> std::string {
+    return per_page(a, [](PgDoc& d, QPDFObjectHandle& pg) { return d.ids(pg.getPageContents()); });
+});
+
+// c16pgpipe: pipePageContents
+static Reg r_c16pgpipe("c16pgpipe", [](std::vector<std::string> const& a) -> std::string {
+    return per_page(a, [](PgDoc&, QPDFObjectHandle& pg) {
+        Pl_Buffer buf("out");
+        pg.pipePageContents(&buf);
+        return hex_or_dash(buf_string(buf));
+    });
+});
+
+// c16pgcoalesce: coalesceContentStreams; K = /Contents left as it was, S<hex> = replaced by a stream with these data
+static Reg r_c16pgcoalesce("c16pgcoalesce", [](std::vector<std::string> const& a) -> std::string {
+    return per_page(a, [](PgDoc&, QPDFObjectHandle& pg) {
+        std::string before = pg.getKey("/Contents").unparse();
+        pg.coalesceContentStreams();
+        auto c = pg.getKey("/Contents");
+        if (c.unparse() == before) return std::string("K");
+        if (!c.isStream()) return std::string("notstream");
+        auto p = c.getStreamData(qpdf_dl_generalized);
+        return "S" + hex_or_dash(std::string(reinterpret_cast<char const*>(p->getBuffer()), p->getSize()));
+    });
+});
+
+// c16pgfilter: filterPageContents(ContentNormalizer)
+static Reg r_c16pgfilter("c16pgfilter", [](std::vector<std::string> const& a) -> std::string {
+    return per_page(a, [](PgDoc&, QPDFObjectHandle& pg) {
+        Pl_Buffer buf("out");
+        ContentNormalizer norm;
+        pg.filterPageContents(&norm, &buf);
+        return hex_or_dash(buf_string(buf)) + " " + (norm.anyBadTokens() ? "1" : "0") + " " + (norm.lastTokenWasBad() ? "1" : "0");
+    });
+});
+
+// c16pgtoks: what a token filter behind filterPageContents sees
+static Reg r_c16pgtoks("c16pgtoks", [](std::vector<std::string> const& a) -> std::string {
+    return per_page(a, [](PgDoc&, QPDFObjectHandle& pg) {
+        Recorder rec;
+        pg.filterPageContents(&rec, nullptr);
+        return rec.out.empty() ? std::string("-") : rec.out;
+    });
+});
+
+// c16pgaddtf: addContentTokenFilter(ContentNormalizer) (coalesces, then attaches the filter to the stream), then the
+// data of /Contents as a writer would fetch them
+static Reg r_c16pgaddtf("c16pgaddtf", [](std::vector<std::string> const& a) -> std::string {
+    return per_page(a, [](PgDoc&, QPDFObjectHandle& pg) {
+        pg.addContentTokenFilter(std::shared_ptr<QPDFObjectHandle::TokenFilter>(new ContentNormalizer()));
+        auto c = pg.getKey("/Contents");
+        if (!c.isStream()) return std::string("notstream");
+        Pl_Buffer buf("out");
+        c.pipeStreamData(&buf, 0, qpdf_dl_generalized);
+        return hex_or_dash(buf_string(buf));
+    }, true);      // the filter is attached to the stream object itself when /Contents is a single stream
+});
+
+// c16pgparse: parsePageContents: the size of the content the parser is given
+static Reg r_c16pgparse("c16pgparse", [](std::vector<std::string> const& a) -> std::string {
+    return per_page(a, [](PgDoc& d, QPDFObjectHandle& pg) {
+        d.only_list_warnings = true;
+        SizeCallbacks cb;
+        pg.parsePageContents(&cb);
+        return std::to_string(cb.size);
+    });
+});
+
+// c16pgadd <pages> <objects> <first:0|1>: addPageContents(new stream, first); the resulting getPageContents (N = the new one) and pipePageContents
+static Reg r_c16pgadd("c16pgadd", [](std::vector<std::string> const& a) -> std::string {
+    bool first = a.at(2) == "1";
+    return per_page(a, [first](PgDoc& d, QPDFObjectHandle& pg) {
+        pg.addPageContents(d.pdf.newStream("q\n"), first);
+        Pl_Buffer buf("out");
+        pg.pipePageContents(&buf);
+        return d.ids(pg.getPageContents()) + ";" + hex_or_dash(buf_string(buf));
+    });
+});
+
+// c16pgext <pages> <objects> <min>: QPDFPageObjectHelper::externalizeInlineImages(min), then the page content and the
+// image XObjects of the page's resources:  <hex content>;<hex name>=<hex data>;...
+static Reg r_c16pgext("c16pgext", [](std::vector<std::string> const& a) -> std::string {
+    size_t min_size = static_cast<size_t>(std::stoul(a.at(2)));
+    return per_page(a, [min_size](PgDoc&, QPDFObjectHandle& pg) {
+        QPDFPageObjectHelper(pg).externalizeInlineImages(min_size, false);
+        Pl_Buffer buf("out");
+        pg.pipePageContents(&buf);
+        std::string r = hex_or_dash(buf_string(buf)) + ";" + (pg.getKey("/Contents").isStream() ? "S" : "K");
+        auto xo = pg.getKey("/Resources").getKey("/XObject");
+        if (xo.isDictionary()) {
+            for (auto const& k: xo.getKeys()) {
+                auto im = xo.getKey(k);
+                if (im.isStream()) {
+                    auto p = im.getRawStreamData();
+                    r += ";" + hex(k.substr(1)) + "=" + hex_or_dash(std::string(reinterpret_cast<char const*>(p->getBuffer()), p->getSize()));
+                }
+            }
+        }
+        return r;
+    });
 });
